@@ -183,12 +183,11 @@ func capPreCount(swampObj swamp.Swamp, predicate func(treasureForCount) bool) (i
 	adapted := func(t treasure.Treasure) bool {
 		return predicate(t)
 	}
-	count := swampObj.CountMatchingTreasures(adapted)
-	// Cap-bearing patch flows serialise on swamp.capMu — but the swamp
-	// interface does not expose it directly. Acquire it via the
-	// public LockCapMu / UnlockCapMu accessors added on the swamp
-	// interface so the gateway can hold it for the whole batch.
+	// Take the cap mutex FIRST and count under it. Counting before the lock let two concurrent
+	// cap-bearing batches both observe the same pre-count, both compute the full remaining
+	// budget, and together push the number of matching records above Cap.MaxMatching.
 	swampObj.LockCapMu()
+	count := swampObj.CountMatchingTreasures(adapted)
 	return count, swampObj.UnlockCapMu
 }
 
